@@ -229,7 +229,17 @@ def x_validate(w, s, st, info):
                 exp['nodes'][k][0]['Site'] = new_site
                 exp['nodes'][k][0].setdefault('StitchNode', lst[0].get('StitchNode'))
     if canon(exp) != canon(post):
-        w.flag('C10', 'validate_side_effect', {'accepted': got},
+        # recorded finding: writing the site goes through set_property, which always writes StitchNode=false
+        only_stitch = True
+        for k in set(exp['nodes']) | set(post['nodes']):
+            a, b = exp['nodes'].get(k, [{}])[0], post['nodes'].get(k, [{}])[0]
+            for pk in set(a) | set(b):
+                if a.get(pk) != b.get(pk) and not (pk == 'StitchNode' and a.get(pk) == 'true' and b.get(pk) == 'false'
+                                                   and st.cls(k) == 'NetworkService'):
+                    only_stitch = False
+        if canon(exp['edges']) != canon(post['edges']):
+            only_stitch = False
+        w.flag('C10', 'validate_side_effect', {'accepted': got, 'symptom': 'stitch_node_reset' if only_stitch else 'other'},
                'validate() changed the model beyond recording inferred sites: %s' % state_diff(post, exp, 'after', 'allowed'))
     w.stats.inc('probe.validate.%s' % ('accept' if accept else 'reject'))
     if not accept:
